@@ -537,31 +537,111 @@ Proof.
       apply Permutation_refl.
 Qed.
 
-(* ---------------------------------------------------------------- plain keys are preserved by the wrapper's calls *)
-Definition op_plain (o : op) : Prop :=
-  match o with OAdd _ t _ => t = 0 | OInsertKey _ t => t = 0 | OResetKey _ t => t = 0 | _ => True end.
+(* ---------------------------------------------------------------- operator== for arbitrary keys *)
+(* keys are (equivalence class id, identity tag): key_eq / hash see the id, operator== of the key sees both.
+   kpairs = the (key, value) pairs as the user sees them, i.e. with the key's identity. *)
+Definition kpairs_of (e : entry) : list (Z * Z * Z) := map (fun v => (ekey e, etag e, v)) (evals e).
+Definition all_kpairs (es : list entry) : list (Z * Z * Z) := flat_map kpairs_of es.
+Definition kpairs (m : mm) : list (Z * Z * Z) := all_kpairs (fst m).
 
-Lemma plain_upd k f es : plain_keys es -> (forall e, etag e = 0 -> etag (f e) = 0) -> plain_keys (upd k f es).
+Definition triple_dec : forall a b : Z * Z * Z, {a = b} + {a <> b}.
+Proof. decide equality; [apply Z.eq_dec|apply pair_dec]. Defined.
+
+Lemma count_kpairs_of e k t v :
+  count_occ triple_dec (kpairs_of e) (k, t, v) =
+  if (ekey e =? k) && (etag e =? t) then count_occ Z.eq_dec (evals e) v else O.
 Proof.
-  unfold plain_keys. intros H Hf. induction es as [|a r IH]; simpl; auto. inversion H; subst.
-  destruct (ekey a =? k); constructor; auto.
+  unfold kpairs_of. induction (evals e) as [|w l IH].
+  - simpl. destruct ((ekey e =? k) && (etag e =? t)); reflexivity.
+  - cbn [map]. destruct (triple_dec (ekey e, etag e, w) (k, t, v)) as [E|NE].
+    + rewrite count_occ_cons_eq by exact E. inversion E; subst. rewrite !Z.eqb_refl in *. cbn [andb] in *.
+      rewrite count_occ_cons_eq by reflexivity. rewrite IH. reflexivity.
+    + rewrite count_occ_cons_neq by exact NE. rewrite IH.
+      destruct (Z.eqb_spec (ekey e) k); cbn [andb]; auto. destruct (Z.eqb_spec (etag e) t); cbn [andb]; auto.
+      rewrite count_occ_cons_neq; auto. intros ->. subst. contradiction.
 Qed.
 
-Lemma plain_step1 M m o : plain_keys (fst m) -> op_plain o -> plain_keys (fst (step1 M m o)).
+Lemma count_kpairs es k t v : NoDup (keys es) ->
+  count_occ triple_dec (all_kpairs es) (k, t, v) =
+  match find k es with Some e => if etag e =? t then count_occ Z.eq_dec (evals e) v else O | None => O end.
 Proof.
-  intros P HO. destruct m as [es n]. simpl in *. destruct o; simpl in *; auto.
-  - destruct (find k es); simpl.
-    + apply plain_upd; auto.
-    + apply Forall_app; split; auto.
-  - destruct (find k es); simpl; auto. apply plain_upd; auto.
-  - destruct (find k es); simpl; auto. apply Forall_app; split; auto.
-  - destruct (find k es) as [e|]; simpl; auto. destruct (i <? length (evals e))%nat; simpl; auto. apply plain_upd; auto.
-  - apply Forall_map. eapply Forall_impl; [|exact P]. auto.
-  - destruct (find k es); simpl; auto. apply plain_upd; auto.
-  - destruct (find k es); simpl; auto. apply forall_remove; auto.
-  - apply plain_upd; auto.
-  - constructor.
+  unfold all_kpairs. induction es as [|e r IH]; intros ND; [reflexivity|]. inversion ND; subst.
+  simpl. rewrite count_occ_app, count_kpairs_of, IH by auto.
+  destruct (Z.eqb_spec (ekey e) k) as [E|NE]; simpl; [|reflexivity].
+  subst. assert (find (ekey e) r = None) as -> by (apply find_none; auto). lia.
 Qed.
 
-Lemma plain_copy M m : plain_keys (fst m) -> plain_keys (fst (mm_copy M m)).
-Proof. intros P. simpl. apply Forall_map. eapply Forall_impl; [|exact P]. auto. Qed.
+Lemma length_all_kpairs es : Z.of_nat (length (all_kpairs es)) = sumlen es.
+Proof.
+  unfold all_kpairs. induction es as [|e r IH]; simpl; auto.
+  rewrite app_length, Nat2Z.inj_add, IH. unfold kpairs_of, elen. rewrite map_length. reflexivity.
+Qed.
+
+(* operator== (with the key == test of 4339d66) is EXACTLY multiset equality of the (key identity, value) pairs,
+   for arbitrary keys: no assumption that key_eq-equivalent keys are ==.  Value-less keys are invisible. *)
+Theorem w_eq_iff_keyed_pairs_permutation l r : WInv l -> WInv r ->
+  (w_eq l r = true <-> Permutation (kpairs l) (kpairs r)).
+Proof.
+  intros [NL CL] [NR CR]. unfold w_eq, kpairs, get_count. destruct l as [el nl], r as [er nr]. simpl in *. subst nl nr.
+  split.
+  - destruct (Z.eqb_spec (sumlen el) (sumlen er)) as [EC|]; simpl; [|discriminate].
+    intros FA. rewrite forallb_forall in FA.
+    assert (forall e, In e el -> length (evals e) <> O ->
+              exists e', find (ekey e) er = Some e' /\ etag e = etag e' /\ Permutation (evals e) (evals e')) as PK.
+    { intros e I NZ. specialize (FA e I). destruct (Nat.eqb_spec (length (evals e)) 0); [contradiction|].
+      destruct (find (ekey e) er) as [e'|]; [|discriminate]. exists e'. split; auto.
+      destruct (Z.eqb_spec (etag e) (etag e')); simpl in FA; [|discriminate]. split; auto.
+      destruct (negb (length (evals e) =? length (evals e'))%nat); [discriminate|]. apply is_perm_spec; auto. }
+    assert (sumlen_on (nonempty_keys el) er = sumlen_on (nonempty_keys el) el) as SO.
+    { assert (forall sub, incl sub el -> sumlen_on (nonempty_keys sub) er = sumlen_on (nonempty_keys sub) el) as G.
+      { induction sub as [|e s IH]; intros IN; [reflexivity|]. unfold nonempty_keys. simpl.
+        destruct (Nat.eqb_spec (length (evals e)) 0) as [L|L]; simpl; fold (nonempty_keys s).
+        - apply IH. intros x I; apply IN; right; auto.
+        - rewrite IH by (intros x I; apply IN; right; auto).
+          destruct (PK e (IN e ltac:(left; auto)) L) as (e' & F & _ & P).
+          unfold len_of. rewrite F. rewrite (in_find el e NL (IN e ltac:(left; auto))).
+          unfold elen. rewrite (Permutation_length P). reflexivity. }
+      apply G. apply incl_refl. }
+    rewrite sumlen_on_nonempty_self in SO by auto.
+    destruct (sumlen_on_bound (nonempty_keys el) er (nonempty_keys_nodup el NL) NR) as [_ Z0].
+    specialize (Z0 ltac:(lia)).
+    assert (forall k e, find k el = Some e -> length (evals e) = O -> len_of k er = 0) as EMP.
+    { intros k e FL L. apply Z0. unfold nonempty_keys. intros I. apply in_map_iff in I. destruct I as (e2 & E & I).
+      apply filter_In in I. destruct I as [I NZ]. pose proof (in_find el e2 NL I) as F2. rewrite E, FL in F2.
+      inversion F2; subst e2. rewrite L in NZ. discriminate. }
+    assert (forall k, find k el = None -> len_of k er = 0) as ABS.
+    { intros k FL. apply Z0. unfold nonempty_keys. intros I. apply in_map_iff in I. destruct I as (e2 & E & I).
+      apply filter_In in I. destruct I as [I _]. pose proof (in_find el e2 NL I) as F2. rewrite E, FL in F2. discriminate. }
+    assert (forall k, len_of k er = 0 -> forall t v,
+              match find k er with Some e => if etag e =? t then count_occ Z.eq_dec (evals e) v else O | None => O end = O) as ZR.
+    { intros k Z1 t v. unfold len_of, elen in Z1. destruct (find k er) as [e'|]; auto.
+      destruct (evals e'); [destruct (etag e' =? t); reflexivity|simpl in Z1; lia]. }
+    apply (Permutation_count_occ triple_dec). intros [[k t] v].
+    rewrite !count_kpairs by auto.
+    destruct (find k el) as [e|] eqn:FL.
+    + destruct (Nat.eqb_spec (length (evals e)) 0) as [L|L].
+      * rewrite (ZR k (EMP k e FL L)). destruct (evals e); [destruct (etag e =? t); reflexivity|simpl in L; lia].
+      * pose proof (find_key _ _ _ FL) as EK. destruct (PK e (find_in _ _ _ FL) L) as (e' & F & ET & P).
+        rewrite EK in F. rewrite F, <- ET. destruct (etag e =? t); auto.
+        revert v. apply (Permutation_count_occ Z.eq_dec). exact P.
+    + rewrite (ZR k (ABS k FL)). reflexivity.
+  - intros P.
+    assert (sumlen el = sumlen er) as EC.
+    { rewrite <- !length_all_kpairs. rewrite (Permutation_length P). reflexivity. }
+    rewrite EC, Z.eqb_refl. simpl. apply forallb_forall. intros e I.
+    destruct (Nat.eqb_spec (length (evals e)) 0) as [L|L]; auto.
+    pose proof (in_find el e NL I) as FL.
+    pose proof (proj1 (Permutation_count_occ triple_dec _ _) P) as CO.
+    assert (forall v, count_occ Z.eq_dec (evals e) v =
+              match find (ekey e) er with Some e' => if etag e' =? etag e then count_occ Z.eq_dec (evals e') v else O | None => O end) as CV.
+    { intros v. specialize (CO (ekey e, etag e, v)). rewrite !count_kpairs in CO by auto. rewrite FL, Z.eqb_refl in CO. exact CO. }
+    destruct (evals e) as [|v0 vs] eqn:EV; [simpl in L; lia|].
+    pose proof (CV v0) as C0. simpl in C0. destruct (Z.eq_dec v0 v0); [|contradiction].
+    destruct (find (ekey e) er) as [e'|]; [|discriminate].
+    destruct (Z.eqb_spec (etag e') (etag e)) as [ET|]; [|discriminate].
+    rewrite <- ET, Z.eqb_refl. cbn [negb].
+    assert (Permutation (v0 :: vs) (evals e')) as PE by (apply perm_count_len; exact CV).
+    rewrite (Permutation_length PE), Nat.eqb_refl. cbn [negb]. apply is_perm_spec. exact PE.
+Qed.
+
+(* for plain keys (all tags 0) the keyed pairs carry no more information than the pairs: special case above *)
